@@ -21,7 +21,7 @@ def work(patch):
             return sid, "PATCH DOES NOT APPLY"
         touched = subprocess.run(["git", "-C", wt, "diff", "--name-only"], capture_output=True, text=True).stdout.split()
         b = subprocess.run([os.path.join(ROOT, "tools", "baseline_check.py"), wt], capture_output=True, text=True)
-        if b.returncode != 0 or not all(t.startswith("ariadne_codegen/") for t in touched):
+        if b.returncode != 0 or not all(t.startswith(("ariadne_codegen/", "tests/main/")) for t in touched):
             return sid, f"REJECTED baseline_rc={b.returncode} touched={touched} {b.stdout[-200:]}"
         d = os.path.join(ROOT, "benign", sid)
         os.makedirs(d, exist_ok=True)
@@ -45,6 +45,6 @@ if __name__ == "__main__":
     only = sys.argv[2:]
     patches = sorted(glob.glob(os.path.join(base, "*", "refactor*.diff")))
     patches = [p for p in patches if not only or any(o in p for o in only)]
-    with Pool(2) as pool:
+    with Pool(int(os.environ.get("VERIF_JOBS", "2"))) as pool:
         for sid, res in pool.imap(work, patches):
             print(sid, res, flush=True)
